@@ -379,14 +379,15 @@ fn random(args: &[String]) {
     ft.set_faketime(GENESIS_TS + 100_000_000 * BLOCK_INTERVAL_MS);
     let mut rng = Rng::new(seed);
     let mut done = 0;
+    // one node under test and one mirror for all scenarios (each open RocksDB preallocates ~75 MB): both are
+    // truncated back to genesis after a scenario, every scenario uses fresh blocks
+    let p = Params { epoch_len: 4, permanent_difficulty: false, genesis_cells: 32, ..Default::default() };
+    let c = consensus_with(&p, difficulty_to_compact(U256::from(1_000_000u64)));
+    let n = Node::start(&NodeCfg { assembler: false, ..NodeCfg::temp(&c) });
+    let m = Node::start(&NodeCfg { assembler: false, ..NodeCfg::temp(&c) });
+    let genesis = c.genesis_block().clone();
+    let spares: Vec<_> = (0..32).map(|i| spend(&c, &[genesis_cell(&c, i)], 50_000 * 100_000_000, 1, 1000, 0)).collect();
     for sc in 0..count {
-        // every scenario gets fresh nodes: the epoch structure differs from branch to branch
-        let p = Params { epoch_len: 4, permanent_difficulty: false, genesis_cells: 32, ..Default::default() };
-        let c = consensus_with(&p, difficulty_to_compact(U256::from(1_000_000u64)));
-        let n = Node::start(&NodeCfg { assembler: false, ..NodeCfg::temp(&c) });
-        let m = Node::start(&NodeCfg { assembler: false, ..NodeCfg::temp(&c) });
-        let genesis = c.genesis_block().clone();
-        let spares: Vec<_> = (0..32).map(|i| spend(&c, &[genesis_cell(&c, i)], 50_000 * 100_000_000, 1, 1000, 0)).collect();
         let nb = rng.range(8, 30) as usize;
         // tree: parent among the last 6 blocks of the growing set (forks to depth 6), parent-first ids
         let mut par: Vec<usize> = vec![];
@@ -462,9 +463,8 @@ fn random(args: &[String]) {
             "tip": id_of(&snap.tip_hash()), "td": format!("{:x}", snap.total_difficulty()), "dropped": t.dropped.load(Ordering::SeqCst)}));
         drop(v);
         done += 1;
-        // leave the nodes running (their temp directories are removed with the invocation's TMPDIR)
-        std::mem::forget(n);
-        std::mem::forget(m);
+        n.truncate_to(&genesis.hash()).unwrap_or_else(|e| tool_error(&format!("truncate: {e}")));
+        m.truncate_to(&genesis.hash()).unwrap_or_else(|e| tool_error(&format!("mirror truncate: {e}")));
     }
     println!("{}", json!({"summary": {"scenarios": done}}));
     use std::io::Write;
